@@ -63,6 +63,17 @@ def inline_helpers(body, src, depth=2):
     return body
 
 
+def inline_consts(src):
+    """Replace uses of simple named constants (`const NAME: T = <literal or path expression>;`) by their value, so
+    that a magic value given a name is still seen where it is used."""
+    for m in list(re.finditer(r"\bconst (\w+): [\w:<>]+ = ([^;{}]+);", src)):
+        name, expr = m.group(1), m.group(2).strip()
+        body = src[:m.start()] + src[m.end():]
+        body = re.sub(r"\b%s\b" % re.escape(name), expr, body)
+        src = body
+    return src
+
+
 def combinators(body):
     """Ordered list of stream combinators that follow a spawn_blocking stage."""
     return re.findall(r"\.(buffered|buffer_unordered)\(", body or "")
@@ -262,17 +273,75 @@ def extract(missing):
     mrw = re.search(r"temp_file\s*\.rewind\(\)", la)
     mwr = [m.start() for m in re.finditer(r"temp_file\s*\.write_all\(", la)]
     f["libTempFlushedBeforeRewind"] = bool(mfl and mrw and mwr and mwr[-1] < mfl[-1] < mrw.start())
-    cli_rs = strip_comments(rd("src/cli.rs"))
-    ph = fn_body(cli_rs, "parse_hash_sum") or ""
-    f["pinLengthChecked"] = bool(re.search(r"if (\w+)\.len\(\) > HashSum::MAX_LEN \{\s*return Err\(", ph)) and \
+    cli_rs = inline_consts(strip_comments(rd("src/cli.rs")))
+    ph = inline_helpers(fn_body(cli_rs, "parse_hash_sum") or "", cli_rs)
+    f["pinLengthChecked"] = bool(re.search(r"if (?:(\w+)\.len\(\) > HashSum::MAX_LEN|HashSum::MAX_LEN < (\w+)\.len\(\)) \{\s*return Err\(", ph)) and \
         bool(re.search(r"\.value_parser\(parse_hash_sum\)", cli_rs))
     # 10. the command line refuses chunk sizes that do not fit the 32 bit fields of the dictionary (F21 repair)
     pco = fn_body(cli_rs, "parse_chunker_opts") or ""
     pcc = fn_body(cli_rs, "parse_chunker_config") or ""
-    f["cliSizesFitU32"] = bool(re.search(r"if max_chunk_size > u32::MAX as usize \|\| window_size > u32::MAX as usize \{\s*return Err\(", pco)) and \
-        bool(re.search(r"if \*fixed_size > u32::MAX as usize \{\s*return Err\(", pcc)) and \
-        bool(re.search(r"if min_chunk_size > avg_chunk_size \{\s*return Err\(", pco)) and \
-        bool(re.search(r"if max_chunk_size < avg_chunk_size \{\s*return Err\(", pco))
+    def gt(a, b):
+        """`a > b` in either spelling"""
+        return r"(?:%s > %s|%s < %s)" % (a, b, b, a)
+    U = r"u32::MAX as usize"
+    f["cliSizesFitU32"] = bool(re.search(r"if (?:%s \|\| %s|%s \|\| %s) \{\s*return Err\(" % (
+        gt(r"\w*max\w*", U), gt(r"\w*window\w*", U), gt(r"\w*window\w*", U), gt(r"\w*max\w*", U)), pco)) and \
+        bool(re.search(r"if %s \{\s*return Err\(" % gt(r"\*?\w*fixed\w*", U), pcc)) and \
+        bool(re.search(r"if %s \{\s*return Err\(" % gt(r"\w*min\w*", r"\w*avg\w*"), pco)) and \
+        bool(re.search(r"if %s \{\s*return Err\(" % gt(r"\w*avg\w*", r"\w*max\w*"), pco))
+    # 11. the option table of the command line (defaults, units, ranges) for Bita.Model.Options
+    su_src = inline_consts(strip_comments(rd("src/string_utils.rs")))
+    su = fn_body(su_src, "parse_human_size") or ""
+    units = []
+    for m in re.finditer(r'"(\w+)"\s*=>\s*([^,\n]+),', su):
+        toks = [t.strip().strip("()").strip() for t in m.group(2).split("*")]
+        var = [t for t in toks if re.fullmatch(r"[a-z_]\w*", t)]
+        nums = [t for t in toks if t not in var]
+        if len(var) != 1 or not all(re.fullmatch(r"\d[\d_]*", t) for t in nums):
+            continue
+        mult = 1
+        for t in nums:
+            mult *= int(t.replace("_", ""))
+        units.append((m.group(1), mult))
+    f["sizeUnits"] = units or missing("unit arms of parse_human_size")
+
+    def arg_block(name):
+        m = re.search(r'Arg::new\("%s"\)' % re.escape(name), cli_rs)
+        if not m:
+            return ""
+        n = re.search(r"Arg::new\(|\bfn \w+", cli_rs[m.end():])
+        return cli_rs[m.end(): m.end() + n.start()] if n else cli_rs[m.end():]
+
+    def default_of(name):
+        m = re.search(r'\.default_value\("([^"]*)"\)', arg_block(name))
+        if not m:
+            # the Arg built by a helper that takes the name and the default as its first two string arguments
+            m = re.search(r'\b\w+\(\s*"%s",\s*"([^"]*)"' % re.escape(name), cli_rs)
+        return m.group(1) if m else missing("default value of --%s" % name)
+    f["cliDefaultAvg"] = default_of("avg-chunk-size")
+    f["cliDefaultMin"] = default_of("min-chunk-size")
+    f["cliDefaultMax"] = default_of("max-chunk-size")
+    f["cliDefaultHashChunking"] = default_of("hash-chunking")
+    f["cliDefaultLevel"] = default_of("compression-level")
+    f["cliDefaultCompression"] = default_of("compression")
+    f["cliDefaultHashLength"] = default_of("hash-length")
+    wb = arg_block("rolling-window-size")
+    ifs = dict(re.findall(r'\.default_value_if\("hash-chunking",\s*"(\w+)",\s*"([^"]*)"\)', wb))
+    wd = re.search(r'\.default_value\("([^"]*)"\)', wb)
+    f["cliDefaultWindowRollSum"] = ifs.get("RollSum") or (wd.group(1) if wd else missing("default window (RollSum)"))
+    f["cliDefaultWindowBuzHash"] = ifs.get("BuzHash") or (wd.group(1) if wd else missing("default window (BuzHash)"))
+    hv = re.search(r"\.value_parser\(\[([^\]]*)\]\)", arg_block("hash-chunking"))
+    hvals = re.findall(r'"(\w+)"', hv.group(1)) if hv else []
+    f["txtRollSum"] = "RollSum" if "RollSum" in hvals and re.search(r'"RollSum"\)?\s*=>\s*chunker::Config::RollSum', pcc) else missing("RollSum option value")
+    f["txtBuzHash"] = "BuzHash" if "BuzHash" in hvals and re.search(r'"BuzHash"\)?\s*=>\s*chunker::Config::BuzHash', pcc) else missing("BuzHash option value")
+    pcm = fn_body(cli_rs, "parse_compression") or ""
+    f["txtBrotli"] = "brotli" if re.search(r'"brotli"\s*=>\s*Some\(Compression::brotli\(', pcm) else missing("brotli option value")
+    f["txtNone"] = "none" if re.search(r'"none"\s*=>\s*None', pcm) else missing("none option value")
+    m = re.search(r"\.value_parser\(value_parser!\(u32\)\.range\((\d+)\.\.=\(HashSum::MAX_LEN as i64\)\)\)", arg_block("hash-length"))
+    f["cliHashLengthMin"] = int(m.group(1)) if m else missing("range of --hash-length")
+    cz = strip_comments(rd("bitar/src/compression.rs"))
+    m = re.search(r"CompressionAlgorithm::Brotli => (\d+)", fn_body(cz, "max_level") or "")
+    f["brotliMaxLevel"] = int(m.group(1)) if m else missing("brotli max_level")
     return f
 
 
@@ -294,6 +363,10 @@ def bool_expr(src):
         else:
             return None
     return " ".join(out)
+
+
+def lean_chars(t):
+    return "[" + ", ".join("'%s'" % c for c in t) + "]"
 
 
 def lean_str_list(xs):
@@ -385,6 +458,14 @@ def gen(f):
         "def cliSizesFitU32 : Bool := %s" % ("true" if f.get("cliSizesFitU32") else "false"),
         "/-- `poll_read_fail` truncates a body frame longer than what is still requested -/",
         "def httpFragmentClipped : Bool := %s" % ("true" if f.get("httpFragmentClipped") else "false"),
+        "",
+        "/-- option table of the command line (cli.rs, string_utils.rs, compression.rs), for `Bita.Model.Options` -/",
+        "def sizeUnits : List (List Char × Nat) := [%s]" % ", ".join("(%s, %d)" % (lean_chars(u), m) for u, m in (f.get("sizeUnits") or [])),
+    ] + ["def %s : List Char := %s" % (k, lean_chars(f.get(k) or "")) for k in (
+        "cliDefaultAvg", "cliDefaultMin", "cliDefaultMax", "cliDefaultHashChunking", "cliDefaultLevel", "cliDefaultCompression",
+        "cliDefaultHashLength", "cliDefaultWindowRollSum", "cliDefaultWindowBuzHash", "txtRollSum", "txtBuzHash", "txtBrotli", "txtNone")] + [
+        "def cliHashLengthMin : Nat := %d" % (f.get("cliHashLengthMin") or 0),
+        "def brotliMaxLevel : Nat := %d" % (f.get("brotliMaxLevel") or 0),
         "",
         "end Bita.Gen",
         "",
